@@ -170,9 +170,11 @@ Definition nbt_target (t : string) : option dtarget :=
   else if t == "_, err := decoder.Decode((*rawMsgStruct)(m))" then Some DT_Struct
   else if t == "_, err := decoder.Decode(&m.Extra)" then Some DT_Extra
   else None.
+(* repo fix 76b3415: the tag type byte is put back in front of r by nestedReader (chat/nbtnest.go), which also counts
+   the nesting of components across the decoders and refuses more than maxNestingDepth = 512 levels (the model has
+   no limit: deeper components are outside what of_tag_into describes) *)
 Definition decoder_prelude (t : string) : bool :=
-  (t == "tagReader := bytes.NewReader([]byte{tagType})")
-  || (t == "decoder := nbt.NewDecoder(io.MultiReader(tagReader, r))")
+  (t == "decoder := nbt.NewDecoder(nestedReader(tagType, r))")
   || (t == "decoder.NetworkFormat(true)").
 Fixpoint nd_run (ss : list cstmt17) (id : N) : option dtarget :=
   match ss with
